@@ -333,3 +333,26 @@ CHECKS["C15"] = dict(
               "connection-closed", "connection-kept-open", "channel:sync", "channel:queued"],
     assumptions=["net/http's ReadRequest/ReadResponse are the standard parser", "handlers keep the usual contracts: an explicit Content-Length equals the bytes written; bodiless statuses and HEAD write no body; no chunked responses to HTTP/1.0"],
 )
+
+CHECKS["C12"] = dict(
+    test="TestC12", level="exploration", race=True,
+    env={"GORACE": "halt_on_error=0"},
+    quick=dict(shards=4, checks=4, timeout=500),
+    thorough=dict(shards=8, checks=60, timeout=3400),
+    replay_repeat=5,
+    rule="concurrent API programs run under the Go race detector (binary built with -race, real goroutines, real scheduler, real "
+         "AsyncExecutor). A program = target (sync / queued blocking / queued non-blocking channel, bootstrap on a mock transport factory, "
+         "bootstrap on real loopback TCP, ChannelHolder shared by several channels, idle handlers on a live channel, byte/buffer pools) + "
+         "2-4 goroutines with 1-5 operations each from that target's concurrently usable API and a generated pacing (start offset 0/1/20/"
+         "120/250 ms, repeat-until 0/50/300 ms, gap 0/0.1/2 ms) so that operations run before, during and after each other's internal "
+         "waits. (1) enumeration by shard 0: every unordered pair of operation kinds per target with at least one mutating operation, at "
+         "three pacings; (2) rapid-generated batches of 24 programs run concurrently. Oracle: no race report (stderr is captured "
+         "in-process and parsed); a report is normalised to function + access kind + trimmed source line of the top go-netty frame of both "
+         "stacks. Non-trivial = goroutines of one program touch the same object with at least one mutating operation; class labels record "
+         "the operation pairs covered.",
+    required=["target:sync", "target:qblock", "target:qnonblock", "target:bootstrap", "target:tcp", "target:holder", "target:idle", "target:pool",
+              "pair:qblock:close~write1", "pair:bootstrap:listen-async~shutdown", "pair:holder:closeall~open-channel"],
+    assumptions=["only executed code is judged; the detector keeps a bounded access history per word, hence repetitions and pacing",
+                 "harness data shared between goroutines is synchronised; a report without any go-netty frame is treated as a harness bug (inconclusive)",
+                 "operations the property excludes (pipeline mutation while events flow, attachment access) are never generated"],
+)
